@@ -22,6 +22,8 @@ pub open spec fn lower_seq(s: Seq<char>) -> Seq<char> decreases s.len()
 /// ASCII lower-casing (what make_ascii_lowercase / to_ascii_lowercase do).
 pub open spec fn lower_ascii_seq(s: Seq<char>) -> Seq<char> { s.map_values(|c: char| ascii_lower(c)) }
 
+pub open spec fn all_ascii_lower(s: Seq<char>) -> bool { forall|i: int| 0 <= i < s.len() ==> ascii_lower_c(#[trigger] s[i]) }
+
 pub open spec fn has_char(s: Seq<char>, c: char) -> bool { exists|i: int| 0 <= i < s.len() && s[i] == c }
 
 // A-validated fact (exhaustive over all 128 ASCII chars): on ASCII, Unicode lower-casing is ASCII lower-casing.
@@ -215,4 +217,11 @@ pub proof fn lemma_trim_empty_iff_all(s: Seq<char>, c: char)
 {
     lemma_trim_start_all(s, c);
     lemma_trim_end_all(trim_start_spec(s, c), c);
+}
+
+pub proof fn lemma_lower_ascii_fixed(s: Seq<char>)
+    requires forall|i: int| 0 <= i < s.len() ==> !ascii_upper_c(#[trigger] s[i])
+    ensures lower_ascii_seq(s) == s
+{
+    assert(lower_ascii_seq(s) =~= s);
 }
